@@ -206,6 +206,17 @@ pub fn gen_c12(thorough: bool, seed: u64) -> Vec<Episode> {
         ops.push(json!({"op": "t_rel", "f": "eq", "a": 4, "b": 3}));
         eps.push(ep(12, ops));
     }
+    // literal lists as a caller may write them: unordered, with repeated entries (a repeated literal is that literal)
+    {
+        let mut ops = Vec::new();
+        for (pl, ql) in [(vec![0usize, 0], vec![]), (vec![3, 1, 3], vec![2, 2]), (vec![31, 31], vec![30, 0, 30]), (vec![], vec![5, 5, 5]),
+                         (vec![7, 6, 7, 6], vec![1]), (vec![2], vec![1, 1]), (vec![4, 4], vec![4])] {
+            ops.push(json!({"op": "t_mk", "k": "cube", "c": "from_vars", "d": 0, "p": pl, "q": ql}));
+            ops.push(json!({"op": "t_info", "a": 0}));
+            ops.push(json!({"op": "t_val", "a": 0, "mb": pl}));
+        }
+        eps.push(ep(6, ops));
+    }
     eps
 }
 
@@ -369,6 +380,17 @@ pub fn gen_c13(thorough: bool, seed: u64) -> Vec<Episode> {
                 eps.push(ep(n, ops));
             }
         }
+    }
+    // variable lists as a caller may write them: unordered, with repeated entries (a repeated variable is that variable)
+    {
+        let mut ops = Vec::new();
+        for (vl, x) in [(vec![1usize, 1], false), (vec![3, 0, 3], false), (vec![31, 31], true), (vec![5, 5, 5], true), (vec![7, 6, 7, 6], false)] {
+            ops.push(json!({"op": "t_mk", "k": "ecube", "c": "from_vars", "d": 0, "v": vl, "x": x}));
+            ops.push(json!({"op": "t_info", "a": 0}));
+            ops.push(json!({"op": "t_val", "a": 0, "mb": vl}));
+            ops.push(json!({"op": "t_val", "a": 0, "mb": [vl[0]]}));
+        }
+        eps.push(ep(6, ops));
     }
     eps
 }
@@ -591,6 +613,26 @@ pub fn gen_c14(thorough: bool, seed: u64) -> Vec<Episode> {
         let n = 10 + round % 3;
         let base = [61usize, 62, 63, 64, 65, 66, 127, 128][round % 8];
         eps.push(ep(n, long_list_ops(&mut r, n, base, round)));
+    }
+    // dense products: (all 3^k cubes over k variables) & (the same, possibly with one more literal in every cube):
+    // hundreds of thousands of pairwise products collapsing to a handful of cubes - the regime where an
+    // implementation batches, compacts or parallelises the product
+    for (k, extra) in [(4usize, false), (5, true), (6, false), (6, true)] {
+        if !thorough && k == 6 && !extra {
+            continue;
+        }
+        let n = k + 1;
+        let all = all_cubes(k);
+        let a: Vec<(usize, usize)> = all.iter().map(|&(p, q)| if extra { (p | (1 << k), q) } else { (p, q) }).collect();
+        eps.push(ep(n, vec![
+            sop_mk(0, n, &a, "sop"),
+            sop_mk(1, n, &all, "sop"),
+            json!({"op": "t_bin", "g": "and", "f": FORMS[k % 4], "a": 0, "b": 1, "d": 2}),
+            json!({"op": "t_info", "a": 2}),
+            json!({"op": "t_tolut", "a": 2, "f": "ref"}),
+            json!({"op": "t_bin", "g": "or", "f": FORMS[(k + 1) % 4], "a": 0, "b": 1, "d": 3}),
+            json!({"op": "t_info", "a": 3}),
+        ]));
     }
     eps
 }
@@ -1051,6 +1093,22 @@ pub fn gen_c18(thorough: bool, seed: u64) -> Vec<Episode> {
                 })
                 .collect();
             eps.push(ep(n, vec![json!({"op": "optimize_var", "kind": kind, "n": n, "fs": fs, "andc": t.0, "xorc": t.1, "orc": t.2, "variants": variants})]));
+        }
+    }
+    // the same function listed two or three times (n = 3): the forms trade term gates against join gates, which are
+    // now paid per copy; the specification has the exact optimum (single-output optimum with the join cost multiplied)
+    {
+        let cnt = if thorough { 256 } else { 63 };
+        for i in 0..cnt {
+            let f: u64 = if thorough { i as u64 } else { [0x16u64, 0x7e, 0xbd, 0xdb, 0xe7, 0x69, 0x96, 0xe8, 0x17][i % 9] ^ ((i / 9) as u64 * 0x24) };
+            let copies = 2 + i % 2;
+            let kind = ["esop", "sopes", "esop", "esop", "sop", "esop"][i % 6];
+            let t = [(1, 1, 1), (1, 3, 2), (2, 1, 1), (1, 2, 3)][(i / 2) % 4];
+            push(&mut eps, 3, vec![onset(3, f & 0xff); copies], kind, t);
+        }
+        // ... and at n = 2 for every function
+        for f in 0..16u64 {
+            push(&mut eps, 2, vec![onset(2, f); 3], kinds[(f % 3) as usize], triples[(f as usize) % triples.len()]);
         }
     }
     eps
